@@ -449,7 +449,8 @@ fn finish_install(line: &mut String, ctx: &Ctx, inj: &InjectorPP, before: usize,
         }
         Ok(()) => {
             let g = guards.last().unwrap();
-            let tr = unsafe { arena::read(g.jit, g.jit_size) };
+            // a guard without a trampoline (null) is reported as it is: nothing to read
+            let tr = if g.jit == 0 { Vec::new() } else { unsafe { arena::read(g.jit, g.jit_size) } };
             line.push_str(&format!(
                 " ok ev={} g={:x}:{}:{:x}:{}:{} tr={} sl={} frame={} call={} live={}",
                 ev_str(evs),
